@@ -321,12 +321,12 @@ def coq_expr(case, arrays, nparrays):
     ys, xs = arrays if arrays is not None else ([], [])
     y2 = case.get("Y2") or case["Y"]
     if nparrays is not None and arrays is not None and tuple(nparrays) == tuple(arrays):
-        npchk = "rows_ok"
+        npchk = "true"          # placeholder: same arrays as the implementation's, the harness reuses that verdict
     else:
         nys, nxs = nparrays if nparrays is not None else ([], [])
         npchk = "C04_check k (%s, %s)" % (vlib.zlist(nys), vlib.zlist(nxs))
-    return ("let Y := %s in let X := %s in let k := (Y, X, (%d # %d)%%Q, %s) in let rows_ok := C04_check k (%s, %s) in "
-            "(C04_model k, rows_ok, outside_hyp k %s, Z.of_nat (quota X (%d # %d)%%Q), "
+    return ("let Y := %s in let X := %s in let k := (Y, X, (%d # %d)%%Q, %s) in "
+            "(C04_model k, C04_check k (%s, %s), outside_hyp k %s, Z.of_nat (quota X (%d # %d)%%Q), "
             "Z.of_nat (length (sampled_indices X (%d # %d)%%Q)), %s)" % (
                 vlib.zlist(case["Y"]), vlib.zlist(case["X"]), fr.numerator, fr.denominator, vlib.blit(case["c"]),
                 vlib.zlist(ys), vlib.zlist(xs), vlib.zlist(y2), fr.numerator, fr.denominator,
@@ -448,12 +448,18 @@ def evaluate(cases, fresh=(), max_respawn=4, crosscheck=None):
         npres = f2.result()["results"]
     small = [i for i, c in enumerate(cases) if "scale" not in c]
     exprs = []
+    shared = []
     for i in small:
         c, runs, nr = cases[i], res[i], npres[i]
         good = {m: r for m, r in runs.items() if r and "score" in r}
         first = None if not good else pick_first(good)
-        exprs.append(coq_expr(c, None if first is None else (good[first]["ys"], good[first]["xs"]), (nr["ys"], nr["xs"])))
-    vals = dict(zip(small, balanced_eval(exprs, [len(cases[i]["X"]) for i in small]))) if small else {}
+        arrays = None if first is None else (good[first]["ys"], good[first]["xs"])
+        shared.append(arrays is not None and tuple(arrays) == (nr["ys"], nr["xs"]))
+        exprs.append(coq_expr(c, arrays, (nr["ys"], nr["xs"])))
+    vals = {}
+    if small:
+        for i, sh, v in zip(small, shared, balanced_eval(exprs, [len(cases[i]["X"]) for i in small])):
+            vals[i] = tuple(v[:6]) + ((v[2],) if sh else (v[6],))     # same arrays => same C04_check verdict
     out = []
     bad = []
     for i, (c, runs, nr) in enumerate(zip(cases, res, npres)):
